@@ -19,7 +19,10 @@ Readings of the statement that the oracle relies on (none demands more than
 the statement):
 
 * "CancelledError" is asyncio.CancelledError or concurrent.futures.CancelledError;
-  an output that is itself cancelled counts as carrying CancelledError.
+  an output that is itself cancelled counts as carrying CancelledError, and so does an input
+  that failed *with* a CancelledError without being in the cancelled state (outcome "cx":
+  set_exception(CancelledError()); the future of an inner multi / @gen.coroutine whose own
+  input was cancelled).
 * A combinator call that raises synchronously (only possible with inputs that
   are already done) is treated as an output settled with that exception, for
   multi and with_timeout (`await multi(...)` cannot tell the difference).  For
@@ -45,6 +48,7 @@ the statement):
 """
 
 import asyncio
+import collections
 import concurrent.futures as cfut
 import datetime
 
@@ -58,7 +62,10 @@ CHUNK = 1000
 RULE = ("gen(seed): combinator in {multi list/dict, WaitIterator args/kwargs x next()/async-for x consumer giving up on a pending "
         "next() (cancel / asyncio.wait_for) and calling next() again, "
         "with_timeout abs/timedelta x 1-2 wrappers, chain_future x target pending/done/cancelled/"
-        "settled-in-between}; <=4 distinct inputs (asyncio|concurrent, result|exception|cancelled, "
+        "settled-in-between}; <=4 distinct inputs (asyncio|concurrent, result|exception|cancelled|failed with "
+        "set_exception(CancelledError()); for multi also the future of an inner gen.multi / "
+        "@gen.coroutine / Task over such an input; optionally a second WaitIterator alive at the "
+        "same time over disjoint or overlapping inputs, possibly left undrained, "
         "completed directly or via call_soon), argument list with duplicates, inputs already done "
         "before the call, completion script of steps separated by 0 / 1 iteration / idle / k time "
         "units, deadlines placed at completion time -1/0/+1 units, consumer pauses, late+cost tapes. "
@@ -84,6 +91,7 @@ ASSUMPTIONS = [
 EXC_TYPES = (ValueError, KeyError, RuntimeError, OSError)
 QUIET = (ValueError, KeyError)
 COMBS = ("multi", "wait", "timeout", "chain")
+CANCELS = ("cancel", "cx")  # cancelled state / failed with set_exception(CancelledError())
 EPS = 2.0**-18  # s; only matters for timedelta deadlines that are off the 2**-10 grid
 
 
@@ -113,7 +121,7 @@ def gen(rng, tier, index):
         o = rng.random()
         out = "res" if o < 0.6 else "exc"
         if cancel_on and rng.random() < 0.4:
-            out = "cancel"
+            out = "cancel" if rng.random() < 0.7 else "cx"
         return {"k": "cf" if cf_on and rng.random() < 0.4 else "aio", "o": out,
                 "via": 1 if rng.random() < 0.3 else 0}
 
@@ -137,11 +145,24 @@ def gen(rng, tier, index):
                     args.insert(rng.randint(0, len(args)), rng.choice(args))
                 else:
                     args[rng.randrange(4)] = rng.choice(args)
+        args2 = None
+        if comb == "multi" and rng.random() < 0.4:
+            # children that are themselves futures of an inner multi / @gen.coroutine / Task
+            for sp in inputs:
+                if rng.random() < 0.4:
+                    sp["w"] = rng.choice(["multi", "coro", "task"])
+        if comb == "wait" and n >= 2 and not dup and rng.random() < 0.3:
+            # a second WaitIterator alive at the same time: disjoint or overlapping inputs
+            if rng.random() < 0.5:
+                cut = rng.randint(1, n - 1)
+                args, args2 = args[:cut], args[cut:]
+            else:
+                args2 = rng.sample(args, rng.randint(1, len(args)))
         scn["inputs"] = inputs
         scn["args"] = args
         scn["form"] = "dict" if rng.random() < 0.4 else "list"
         scn["quiet"] = 1 if rng.random() < 0.3 else 0
-        used = sorted(set(args))
+        used = sorted(set(args) | set(args2 or ()))
         pre = [i for i in used if rng.random() < 0.2]
         rng.shuffle(pre)
         rest = [i for i in used if i not in pre]
@@ -153,6 +174,12 @@ def gen(rng, tier, index):
                 "mode": "next" if rng.random() < 0.7 else "aiter",
                 "pauses": [rng.choice([0, 0, 0, 1, -1, 2, 3, 6]) for _ in range(len(args) + 3)],
             }
+            if args2 is not None:
+                scn["args2"] = args2
+                scn["consumer2"] = {"pauses": [rng.choice([0, 0, 1, -1, 2, 3])
+                                               for _ in range(len(args2) + 1)]}
+                if rng.random() < 0.25:
+                    scn["consumer2"]["stop_after"] = rng.randint(0, len(args2))
             if scn["consumer"]["mode"] == "next" and rng.random() < 0.35:
                 # the consumer gives up on some next() calls: >0 = asyncio.wait_for(fut, k units),
                 # -1 = cancel the returned future at once, -2/-3 = after 1/2 iterations
@@ -215,10 +242,16 @@ def validate(scn):
         inputs = scn["inputs"]
         n = len(inputs)
         for sp in inputs:
-            if sp["k"] not in ("aio", "cf") or sp["o"] not in ("res", "exc", "cancel"):
+            if sp["k"] not in ("aio", "cf") or sp["o"] not in ("res", "exc", "cancel", "cx"):
+                return False
+            if sp.get("w") not in (None, "multi", "coro", "task"):
                 return False
         if scn["comb"] in ("multi", "wait"):
             if len(scn["args"]) > 4 or any(not (0 <= a < n) for a in scn["args"]):
+                return False
+            a2 = scn.get("args2")
+            if a2 is not None and (not isinstance(a2, list) or len(a2) > 4
+                                   or any(not (0 <= a < n) for a in a2)):
                 return False
         elif n < 1:
             return False
@@ -318,6 +351,13 @@ def run(scn, full_log=False):
     from tornado import gen
     from tornado.concurrent import chain_future
 
+    # per-run reset of process-global state (DESIGN 3.8): runs share a worker process, so a
+    # class-level container on WaitIterator (there is one, `_unfinished = {}`, never mutated on
+    # the unchanged tree) must not carry anything from an earlier scenario into this one
+    for v in vars(gen.WaitIterator).values():
+        if isinstance(v, (dict, list, set, collections.deque)):
+            v.clear()
+
     comb = scn.get("comb")
     scale = scn.get("scale", 1)
     scale = scale if isinstance(scale, int) and 1 <= scale <= 4096 else 1
@@ -335,22 +375,31 @@ def run(scn, full_log=False):
     def expected_of(i):
         sp = inputs[i]
         if sp["o"] == "res":
-            return ("res", ("r", i))
+            # the future of an inner multi([base]) carries a one-element list
+            return ("res", (("r", i),)) if sp.get("w") == "multi" else ("res", ("r", i))
         if sp["o"] == "exc":
             return ("exc", EXC_TYPES[i % 4].__name__, (("in", i),))
         return ("cancel",)
 
     with SimEnv(scn.get("tapes"), max_iters=20_000, full_log=full_log) as env:
         loop = env.loop
-        futs = []
+        futs = []   # what the combinator is given (a base future or a wrapper around it)
+        bases = []  # what the driver completes
         stamps = {}  # i -> (iteration, seq, loop time)
         S = {"seq": 0, "stop": False, "t_call": None, "it_call": None, "called": False,
              "early": None}
         outs = []  # output futures (multi: 1, timeout: per wrapper, chain: target)
         sync = []  # per output: normalised exception raised synchronously by the call, or None
         tinfo = []  # timeout: per wrapper (D, settle_cb_time)
-        yields = []  # wait: (kind, outcome, current_index, ident, seq_at, backlog)
-        W = {"it": None, "task": None, "overrun": False, "ctor": None, "lost": []}
+        # per WaitIterator: yields = (kind, outcome, current_index, ident, seq_at)
+        W = {"it": None, "task": None, "overrun": False, "ctor": None, "lost": [], "yields": [],
+             "args": scn.get("args"), "cs": scn.get("consumer") or {}, "stopped": False, "no": 0}
+        WS = [W]
+        if comb == "wait" and isinstance(scn.get("args2"), list):
+            WS.append({"it": None, "task": None, "overrun": False, "ctor": None, "lost": [],
+                       "yields": [], "args": scn["args2"], "cs": scn.get("consumer2") or {},
+                       "stopped": False, "no": 1})
+        yields = W["yields"]
         chain = {"b_at_a": None, "ext": None}
 
         blocked = []
@@ -361,7 +410,7 @@ def run(scn, full_log=False):
             return f
 
         def complete(i):
-            f = futs[i]
+            f = bases[i]
             if f.done():
                 return
             if comb == "chain" and outs:
@@ -372,6 +421,10 @@ def run(scn, full_log=False):
                     f.set_result(("r", i))
                 elif o == "exc":
                     f.set_exception(EXC_TYPES[i % 4](("in", i)))
+                elif o == "cx":
+                    # failed WITH a CancelledError, not in the cancelled state
+                    f.set_exception(cfut.CancelledError() if inputs[i]["k"] == "cf"
+                                    else asyncio.CancelledError())
                 else:
                     f.cancel()
             except BaseException as e:
@@ -380,9 +433,39 @@ def run(scn, full_log=False):
                 # (in production: in the executor's worker thread)
                 probe("completer_saw_" + type(e).__name__)
                 env.log.ev("completer_saw", i, type(e).__name__)
-            S["seq"] += 1
-            stamps[i] = (loop.iterations, S["seq"], loop.time())
+            if futs[i] is f:
+                stamp(i)
             env.log.ev("complete", i, o, loop.iterations)
+
+        def stamp(i):
+            S["seq"] += 1
+            stamps.setdefault(i, (loop.iterations, S["seq"], loop.time()))
+
+        def wrap(i):
+            """Replace input i by the future of an inner combinator / coroutine over it."""
+            kind = inputs[i].get("w")
+            base = bases[i]
+            if kind == "multi":
+                f = gen.multi([base])
+            elif kind == "coro":
+                @gen.coroutine
+                def c():
+                    r = yield base
+                    return r
+                f = c()
+            elif kind == "task":
+                async def t():
+                    return await (asyncio.wrap_future(base) if inputs[i]["k"] == "cf" else base)
+                f = asyncio.ensure_future(t())
+            else:
+                return
+            futs[i] = f
+            probe("input_wrapped_" + kind)
+            # registered before the combinator's own callback: runs just before it
+            if f.done():
+                stamp(i)
+            else:
+                f.add_done_callback(lambda _f: stamp(i))
 
         def fire(tok, direct=False):
             if isinstance(tok, bool) or not isinstance(tok, int):
@@ -394,7 +477,7 @@ def run(scn, full_log=False):
                     loop.call_soon(complete, tok)
                 else:
                     complete(tok)
-            elif comb == "chain" and outs and n >= 1 and not futs[0].done():
+            elif comb == "chain" and outs and n >= 1 and not bases[0].done():
                 b = outs[0]
                 if b.done():
                     return
@@ -428,20 +511,25 @@ def run(scn, full_log=False):
                     return j
             return -1
 
-        def backlog():
+        def backlog(W):
             # inputs (with multiplicity collapsed) done but not yet handed out
-            done = sum(1 for a in set(scn["args"]) if futs[a].done())
-            return done - sum(1 for y in yields if y[0] == "y")
+            done = sum(1 for a in set(W["args"]) if futs[a].done())
+            return done - sum(1 for y in W["yields"] if y[0] == "y")
 
-        async def consumer():
-            cs = scn.get("consumer") or {}
+        async def consumer(W):
+            cs = W["cs"]
             pauses = cs.get("pauses") or []
             it = W["it"]
-            cap = 3 * len(scn["args"]) + 4
+            yields = W["yields"]
+            cap = 3 * len(W["args"]) + 4
+            stop_after = cs.get("stop_after")
+            stop_after = stop_after if isinstance(stop_after, int) and \
+                not isinstance(stop_after, bool) and stop_after >= 0 else None
 
             def rec(kind, oc):
                 yields.append((kind, oc, it.current_index, ident(it.current_future), S["seq"]))
-                env.log.ev("yield", kind, oc, _nv(it.current_index), ident(it.current_future))
+                env.log.ev("yield", W["no"], kind, oc, _nv(it.current_index),
+                           ident(it.current_future))
 
             k = 0
             if cs.get("mode") == "aiter":
@@ -469,8 +557,12 @@ def run(scn, full_log=False):
             abandon = cs.get("abandon") or []
             after_abandon = False
             while not it.done():
+                if stop_after is not None and k >= stop_after:
+                    W["stopped"] = True  # the consumer walks away from an undrained iterator
+                    probe("wait_consumer_left_undrained")
+                    return
                 await gap(pauses[k] if k < len(pauses) else 0)
-                bl = backlog()
+                bl = backlog(W)
                 if after_abandon:
                     after_abandon = False
                     if bl > 0:
@@ -521,7 +613,7 @@ def run(scn, full_log=False):
                         if it.current_future is cur:
                             probe("wait_next_abandoned")
                             rec("ab", None)
-                        elif not fut.cancelled() or (0 <= idn < n and inputs[idn]["o"] == "cancel"):
+                        elif not fut.cancelled() or (0 <= idn < n and inputs[idn]["o"] in CANCELS):
                             # the iterator handed an input to this call while the consumer was
                             # giving up (asyncio.wait_for's own race): it is in the future
                             probe("wait_abandon_raced_with_delivery")
@@ -558,17 +650,22 @@ def run(scn, full_log=False):
                     outs.append(None)
                     sync.append(_nexc(e))
             elif comb == "wait":
-                args = scn["args"]
-                try:
-                    if scn.get("form") == "dict" and args:
-                        W["it"] = gen.WaitIterator(**{"k%d" % p: futs[a]
-                                                      for p, a in enumerate(args)})
+                for w in WS:
+                    args = w["args"]
+                    try:
+                        if scn.get("form") == "dict" and args:
+                            w["it"] = gen.WaitIterator(**{"k%d" % p: futs[a]
+                                                          for p, a in enumerate(args)})
+                        else:
+                            w["it"] = gen.WaitIterator(*[futs[a] for a in args])
+                    except BaseException as e:
+                        w["ctor"] = _nexc(e)
                     else:
-                        W["it"] = gen.WaitIterator(*[futs[a] for a in args])
-                except BaseException as e:
-                    W["ctor"] = _nexc(e)
-                else:
-                    W["task"] = loop.create_task(consumer())
+                        w["task"] = loop.create_task(consumer(w))
+                if len(WS) > 1:
+                    probe("wait_two_iterators")
+                    if set(WS[0]["args"]) & set(WS[1]["args"]):
+                        probe("wait_two_iterators_shared_input")
             elif comb == "timeout":
                 for dl in scn.get("deadlines", [])[:2]:
                     d = max(0, int(dl.get("delay", 0))) * scale
@@ -611,9 +708,17 @@ def run(scn, full_log=False):
 
         async def main():
             for sp in inputs:
-                futs.append(new_cf() if sp["k"] == "cf" else loop.create_future())
+                bases.append(new_cf() if sp["k"] == "cf" else loop.create_future())
+            futs.extend(bases)
             for i in scn.get("pre", []):
                 fire(i, direct=True)
+            if comb == "multi":
+                for i in range(n):
+                    try:
+                        wrap(i)
+                    except BaseException as e:
+                        bad("multi.inner_call_raised", f"building the {inputs[i].get('w')} wrapper "
+                            f"of input {i} raised {_nexc(e)}", "other")
             pre_done = [f.done() for f in futs]
             S["pre_done"] = pre_done
             call()
@@ -625,7 +730,7 @@ def run(scn, full_log=False):
                 observe()
             await loop.idle()
             observe()
-            left = [i for i in range(n) if not futs[i].done()]
+            left = [i for i in range(n) if not bases[i].done()]
             if left:
                 await asyncio.sleep(0)
                 for i in left:
@@ -654,7 +759,7 @@ def run(scn, full_log=False):
             env.log.ev("final", j, st, sync[j] if j < len(sync) else None)
 
         # ---------------------------------------------------------------- tags
-        cancelled_inputs = [i for i in range(n) if inputs[i]["o"] == "cancel"]
+        cancelled_inputs = [i for i in range(n) if inputs[i]["o"] in CANCELS]
         pre_done = S.get("pre_done", [False] * n)
         if cancelled_inputs:
             probe("input_cancelled")
@@ -665,6 +770,96 @@ def run(scn, full_log=False):
 
         def after_call(i):
             return i in stamps and not pre_done[i]
+
+        def judge_wait(W):
+            yields = W["yields"]
+            args = W["args"]
+            distinct = []
+            for a in args:
+                if a not in distinct:
+                    distinct.append(a)
+            dup = len(distinct) < len(args)
+            kw = scn.get("form") == "dict" and bool(args)
+            probe("wait_kwargs" if kw else "wait_args")
+            tags = []
+            if dup:
+                tags.append("dup_args")
+                probe("wait_dup_args")
+            if any(inputs[a]["o"] in CANCELS for a in distinct):
+                tags.append("input_cancelled")
+            tag = "+".join(tags) if tags else "other"
+            task = W["task"]
+            if W["ctor"] is not None:
+                bad("waititer.constructor_raised", f"WaitIterator(...) raised {W['ctor']}",
+                    _ename(W["ctor"]) + "/" + tag)
+            seen = {}
+            ys = [y for y in yields if y[0] == "y"]
+            for kind, oc, cidx, idn, _seq in yields:
+                if kind == "ab":
+                    continue
+                if kind == "sync":
+                    bad("waititer.next_raised", f"next() raised {oc} synchronously "
+                        f"(yields so far {len(seen)})", _ename(oc) + "/" + tag)
+                    continue
+                if idn < 0 or idn not in distinct:
+                    bad("waititer.current_future_wrong",
+                        f"after a yield of {oc} current_future is not one of the inputs", tag)
+                    continue
+                if oc != expected_of(idn):
+                    bad("waititer.wrong_outcome", f"yield {oc} with current_future=input {idn} "
+                        f"whose outcome is {expected_of(idn)}", tag)
+                poss = [("k%d" % p if kw else p) for p, a in enumerate(args) if a == idn]
+                if cidx not in poss:
+                    bad("waititer.wrong_index", f"current_index {cidx!r} for input {idn}, "
+                        f"passed at {poss}", tag)
+                seen[idn] = seen.get(idn, 0) + 1
+            if W["overrun"]:
+                bad("waititer.too_many_yields", f"{len(yields)} yields for {len(args)} args", tag)
+            for i, c in seen.items():
+                if c > 1:
+                    bad("waititer.yielded_twice", f"input {i} yielded {c} times", tag)
+            missing = [i for i in distinct if i not in seen]
+            if W["stopped"]:
+                missing = []  # the consumer walked away on purpose; only its yields are judged
+            if task is not None and not task.done():
+                bad("waititer.never_finishes",
+                    f"consumer still waiting at quiescence after {len(ys)} yields; all inputs done; "
+                    f"not yet yielded: {missing}", tag)
+            elif missing:
+                dtag = tag
+                if all(i in W["lost"] and inputs[i]["k"] == "cf" for i in missing):
+                    dtag = "cf_input_committed_to_abandoned_next"
+                bad("waititer.input_dropped", f"iterator reported done() but inputs {missing} "
+                    f"were never yielded (got {[y[3] for y in ys]}; next() calls given up: "
+                    f"{sum(1 for y in yields if y[0] == 'ab')})", dtag)
+            # completion order (partial order, see module doc)
+            order = [y[3] for y in ys if y[3] in stamps]
+            for x in range(len(order)):
+                for y in range(x + 1, len(order)):
+                    a, b = order[x], order[y]  # a yielded before b
+                    if a == b or pre_done[a] and pre_done[b]:
+                        continue
+                    sa, sb = stamps[a], stamps[b]
+                    if pre_done[b] and not pre_done[a]:
+                        wrong = True
+                    elif pre_done[a]:
+                        wrong = False
+                    elif sb[1] < sa[1]:
+                        # b completed first.  An asyncio future announces completion through
+                        # call_soon (one iteration later), a concurrent one synchronously: a
+                        # concurrent `a` finishing no later than the iteration in which asyncio
+                        # `b`'s callback runs may legitimately be seen first.
+                        wrong = not (inputs[b]["k"] == "aio" and inputs[a]["k"] == "cf"
+                                     and sa[0] <= sb[0] + 1)
+                        if not wrong:
+                            probe("wait_unordered_mixed_kinds")
+                    else:
+                        wrong = False
+                    if wrong:
+                        bad("waititer.wrong_order", f"input {a} yielded before input {b} which "
+                            f"completed earlier (stamps {sa[:2]} vs {sb[:2]})", tag)
+            if len({stamps[i][0] for i in distinct if after_call(i)}) >= 2:
+                probe("wait_completions_in_distinct_iterations")
 
         # ---------------------------------------------------------------- oracles
         if status == "done" and comb == "multi":
@@ -686,7 +881,7 @@ def run(scn, full_log=False):
             if nfail >= 2:
                 probe("multi_two_failures")
             if exp is None:
-                vals = [("r", a) for a in args]
+                vals = [expected_of(a)[1] for a in args]
                 if scn.get("form") == "dict":
                     exp = ("res", ("dict",) + tuple(("k%d" % p, v) for p, v in enumerate(vals)))
                 else:
@@ -732,91 +927,8 @@ def run(scn, full_log=False):
                     tag)
 
         elif status == "done" and comb == "wait":
-            args = scn["args"]
-            distinct = []
-            for a in args:
-                if a not in distinct:
-                    distinct.append(a)
-            dup = len(distinct) < len(args)
-            kw = scn.get("form") == "dict" and bool(args)
-            probe("wait_kwargs" if kw else "wait_args")
-            tags = []
-            if dup:
-                tags.append("dup_args")
-                probe("wait_dup_args")
-            if any(inputs[a]["o"] == "cancel" for a in distinct):
-                tags.append("input_cancelled")
-            tag = "+".join(tags) if tags else "other"
-            task = W["task"]
-            if W["ctor"] is not None:
-                bad("waititer.constructor_raised", f"WaitIterator(...) raised {W['ctor']}",
-                    _ename(W["ctor"]) + "/" + tag)
-            seen = {}
-            ys = [y for y in yields if y[0] == "y"]
-            for kind, oc, cidx, idn, _seq in yields:
-                if kind == "ab":
-                    continue
-                if kind == "sync":
-                    bad("waititer.next_raised", f"next() raised {oc} synchronously "
-                        f"(yields so far {len(seen)})", _ename(oc) + "/" + tag)
-                    continue
-                if idn < 0 or idn not in distinct:
-                    bad("waititer.current_future_wrong",
-                        f"after a yield of {oc} current_future is not one of the inputs", tag)
-                    continue
-                if oc != expected_of(idn):
-                    bad("waititer.wrong_outcome", f"yield {oc} with current_future=input {idn} "
-                        f"whose outcome is {expected_of(idn)}", tag)
-                poss = [("k%d" % p if kw else p) for p, a in enumerate(args) if a == idn]
-                if cidx not in poss:
-                    bad("waititer.wrong_index", f"current_index {cidx!r} for input {idn}, "
-                        f"passed at {poss}", tag)
-                seen[idn] = seen.get(idn, 0) + 1
-            if W["overrun"]:
-                bad("waititer.too_many_yields", f"{len(yields)} yields for {len(args)} args", tag)
-            for i, c in seen.items():
-                if c > 1:
-                    bad("waititer.yielded_twice", f"input {i} yielded {c} times", tag)
-            missing = [i for i in distinct if i not in seen]
-            if task is not None and not task.done():
-                bad("waititer.never_finishes",
-                    f"consumer still waiting at quiescence after {len(ys)} yields; all inputs done; "
-                    f"not yet yielded: {missing}", tag)
-            elif missing:
-                dtag = tag
-                if all(i in W["lost"] and inputs[i]["k"] == "cf" for i in missing):
-                    dtag = "cf_input_committed_to_abandoned_next"
-                bad("waititer.input_dropped", f"iterator reported done() but inputs {missing} "
-                    f"were never yielded (got {[y[3] for y in ys]}; next() calls given up: "
-                    f"{sum(1 for y in yields if y[0] == 'ab')})", dtag)
-            # completion order (partial order, see module doc)
-            order = [y[3] for y in ys if y[3] in stamps]
-            for x in range(len(order)):
-                for y in range(x + 1, len(order)):
-                    a, b = order[x], order[y]  # a yielded before b
-                    if a == b or pre_done[a] and pre_done[b]:
-                        continue
-                    sa, sb = stamps[a], stamps[b]
-                    if pre_done[b] and not pre_done[a]:
-                        wrong = True
-                    elif pre_done[a]:
-                        wrong = False
-                    elif sb[1] < sa[1]:
-                        # b completed first.  An asyncio future announces completion through
-                        # call_soon (one iteration later), a concurrent one synchronously: a
-                        # concurrent `a` finishing no later than the iteration in which asyncio
-                        # `b`'s callback runs may legitimately be seen first.
-                        wrong = not (inputs[b]["k"] == "aio" and inputs[a]["k"] == "cf"
-                                     and sa[0] <= sb[0] + 1)
-                        if not wrong:
-                            probe("wait_unordered_mixed_kinds")
-                    else:
-                        wrong = False
-                    if wrong:
-                        bad("waititer.wrong_order", f"input {a} yielded before input {b} which "
-                            f"completed earlier (stamps {sa[:2]} vs {sb[:2]})", tag)
-            if len({stamps[i][0] for i in distinct if after_call(i)}) >= 2:
-                probe("wait_completions_in_distinct_iterations")
+            for W in WS:
+                judge_wait(W)
 
         elif status == "done" and comb == "timeout":
             exp_in = expected_of(0)
@@ -936,11 +1048,11 @@ def run(scn, full_log=False):
         for v in viol:
             probe("viol:" + v["key"])
         # retrieve exceptions so nothing is logged at teardown
-        for f in list(futs) + [o for o in outs if o is not None]:
+        for f in list(futs) + list(bases) + [o for o in outs if o is not None]:
             if f.done() and not f.cancelled():
                 f.exception()
         st = env.stats()
         st["probes"].update(probes)
         return {"violations": viol, "nontrivial": bool(nontrivial and status == "done"),
                 "stats": st, "log_head": env.log.head, "log_full": env.log.full,
-                "outcome": {"final": final, "sync": sync, "yields": [list(y[:4]) for y in yields]}}
+                "outcome": {"final": final, "sync": sync, "yields": [[list(y[:4]) for y in w["yields"]] for w in WS]}}
